@@ -56,13 +56,18 @@ def explains(entry, prop, failure, case):
         if t not in tags:
             return False
     anyt = m.get("tags_any")
-    if anyt and not any(t in tags for t in anyt):
+    if anyt and not any(t in tags for t in anyt) and m.get("detail_re_any") is None:
         return False
     anyt2 = m.get("tags_any2")
     if anyt2 and not any(t in tags for t in anyt2):
         return False
     for t in m.get("tags_none", []):
         if t in tags:
+            return False
+    # tags_any / detail_re_any together: ONE of the two alternatives has to hold (tags_any alone is handled above)
+    drea = m.get("detail_re_any")
+    if drea is not None:
+        if not (re.search(drea, str(failure.get("detail", "")), re.S) or (anyt and any(t in tags for t in anyt))):
             return False
     dre = m.get("detail_re")
     if dre is not None and not re.search(dre, str(failure.get("detail", "")), re.S):
